@@ -115,13 +115,18 @@ Inductive entry :=
 
 Record fdecl := { fd_name : string; fd_entry : entry; fd_ann : bool; fd_cv : bool }.
 
+(** A field of a base class (an Attribute made earlier: it holds copies only). *)
+Record battr := {
+  ba_name : string; ba_default : bool; ba_vals : list sym; ba_convs : list sym;
+  ba_hook : on_setattr; ba_kw : bool; ba_init : bool; ba_meta : list string }.
+
 Record base_info := {
   bi_frozen : bool;      (* the base's __setattr__ is _frozen_setattrs *)
   bi_exc : bool;         (* BaseException subclass *)
   bi_ownsa : bool;       (* __attrs_own_setattr__ is true on the base *)
   bi_hashable : bool;    (* what instances inherit when __hash__ is left alone *)
   bi_pre : bool; bi_post : bool;
-  bi_attrs : list fattr  (* the base's own fields *) }.
+  bi_attrs : list battr  (* the base's own fields *) }.
 
 Record class_body := {
   cb_fields : list fdecl;
@@ -131,11 +136,20 @@ Record class_body := {
 (** The class object handed to a decorator: what [cls.__dict__], the own
     annotations and the bases show. *)
 Inductive cdval := CdCA (c : counting_attr) | CdVal.
+Record cflags := {
+  cf_hash : bool; cf_eq : bool; cf_setattr : bool; cf_init : bool; cf_pre : bool; cf_post : bool;
+  cf_base : base_info }.
 Record class_obj := {
   co_cd : list (string * cdval);
   co_anns : list (string * bool);       (* name, is ClassVar *)
-  co_hash : bool; co_eq : bool; co_setattr : bool; co_init : bool; co_pre : bool; co_post : bool;
-  co_base : base_info }.
+  co_f : cflags }.
+Definition co_hash c := cf_hash (co_f c).
+Definition co_eq c := cf_eq (co_f c).
+Definition co_setattr c := cf_setattr (co_f c).
+Definition co_init c := cf_init (co_f c).
+Definition co_pre c := cf_pre (co_f c).
+Definition co_post c := cf_post (co_f c).
+Definition co_base c := cf_base (co_f c).
 
 (** ** What a definition produces *)
 
@@ -154,7 +168,7 @@ Record cls_result := {
   r_init : bool;               (* __init__ generated (else __attrs_init__) *)
   r_pre : bool; r_post : bool;
   r_slots : bool;
-  r_cls : class_obj }.
+  r_cf : cflags }.            (* what the body and the bases themselves provide *)
 
 Inductive cls_outcome := Raised (e : dexc) | Built (r : cls_result).
 
@@ -275,9 +289,9 @@ Definition anns_of (fs : list fdecl) : list (string * bool) :=
 Definition exec_body (w : world) (b : class_body) : world * class_obj :=
   let '(w1, cd) := exec_fields w (cb_fields b) in
   (w1, {| co_cd := cd; co_anns := anns_of (cb_fields b);
-          co_hash := cb_hash b; co_eq := cb_eq b; co_setattr := cb_setattr b;
-          co_init := cb_init b; co_pre := cb_pre b; co_post := cb_post b;
-          co_base := cb_base b |}).
+          co_f := {| cf_hash := cb_hash b; cf_eq := cb_eq b; cf_setattr := cb_setattr b;
+                     cf_init := cb_init b; cf_pre := cb_pre b; cf_post := cb_post b;
+                     cf_base := cb_base b |} |}).
 
 (** ** [_transform_attrs] *)
 
@@ -301,10 +315,11 @@ Definition evolve_kw (a : fattr) : fattr :=
   {| fa_name := fa_name a; fa_default := fa_default a; fa_vals := fa_vals a;
      fa_convs := fa_convs a; fa_hook := fa_hook a; fa_kw := true; fa_init := fa_init a;
      fa_meta := fa_meta a; fa_inh := fa_inh a |}.
-Definition evolve_inh (a : fattr) : fattr :=
-  {| fa_name := fa_name a; fa_default := fa_default a; fa_vals := fa_vals a;
-     fa_convs := fa_convs a; fa_hook := fa_hook a; fa_kw := fa_kw a; fa_init := fa_init a;
-     fa_meta := fa_meta a; fa_inh := true |}.
+(** A base field as collected by [_collect_base_attrs]: [a.evolve(inherited=True)]. *)
+Definition evolve_inh (a : battr) : fattr :=
+  {| fa_name := ba_name a; fa_default := ba_default a; fa_vals := ba_vals a;
+     fa_convs := ba_convs a; fa_hook := ba_hook a; fa_kw := ba_kw a; fa_init := ba_init a;
+     fa_meta := MVCopy (ba_meta a); fa_inh := true |}.
 
 (** Stable insertion sort by counter: [sorted(..., key=lambda e: e[1].counter)]. *)
 Fixpoint insert_by {A : Type} (key : A -> Z) (x : A) (l : list A) : list A :=
@@ -404,7 +419,7 @@ Definition transform_attrs (mc : world -> metaref -> metaval) (w : world)
       let own := map (fun e => from_counting_attr mc w1 (fst e) (snd e)) ca_list in
       let taken := map fa_name own in
       let base := map evolve_inh
-                      (filter (fun a => negb (mem_str (fa_name a) taken)) (bi_attrs (co_base cls))) in
+                      (filter (fun a => negb (mem_str (ba_name a) taken)) (bi_attrs (co_base cls))) in
       (* if kw_only: NEW Attributes are made (a.evolve); the counting attrs stay *)
       let own := if kw_only then map evolve_kw own else own in
       let base := if kw_only then map evolve_kw base else base in
@@ -531,7 +546,7 @@ Definition attrs_wrap_gen (sticky_hash : bool) (mc : world -> metaref -> metaval
        Built {| r_fields := attrs; r_hash := hash_dec; r_eq := gen_eq; r_setattr := sa;
                 r_init := gen_init;
                 r_pre := co_pre cls || bi_pre base; r_post := co_post cls || bi_post base;
-                r_slots := ac_slots c; r_cls := cls |})
+                r_slots := ac_slots c; r_cf := co_f cls |})
   end.
 
 Definition attrs_wrap := attrs_wrap_gen false meta_copy.
@@ -628,12 +643,12 @@ Definition make_class_gen (pop_from_caller : bool) (w : world) (m : mc_args)
   let body := match mk_body m with Some id => nth id (w_dicts w) [] | None => [] end in
   let cls :=
     {| co_cd := []; co_anns := [];
-       co_hash := dict_has "__hash__" body; co_eq := dict_has "__eq__" body;
-       co_setattr := dict_has "__setattr__" body;
-       co_init := dict_has "__init__" body || user_init;
-       co_pre := dict_has "__attrs_pre_init__" body || pre_init;
-       co_post := dict_has "__attrs_post_init__" body || post_init;
-       co_base := mk_base m |} in
+       co_f := {| cf_hash := dict_has "__hash__" body; cf_eq := dict_has "__eq__" body;
+                  cf_setattr := dict_has "__setattr__" body;
+                  cf_init := dict_has "__init__" body || user_init;
+                  cf_pre := dict_has "__attrs_pre_init__" body || pre_init;
+                  cf_post := dict_has "__attrs_post_init__" body || post_init;
+                  cf_base := mk_base m |} |} in
   (* eq, order = _determine_attrs_eq_order(cmp, eq, order, True) *)
   let a := mk_args m in
   let eq := match ar_eq a with None => Some true | e => e end in
@@ -707,6 +722,8 @@ Definition step (w : world) (o : op) : world :=
 
 Definition run (w : world) (ops : list op) : world := fold_left step ops w.
 
+Definition n_defs (ops : list op) : nat := List.length (filter is_def ops).
+
 (** The history of definition number [k] without the other definitions. *)
 Fixpoint alone (k : nat) (ops : list op) : list op :=
   match ops with
@@ -761,18 +778,18 @@ Definition observe (w : world) (o : cls_outcome) : fprint :=
   match o with
   | Raised e => FExc e
   | Built r =>
-      let cls := r_cls r in
+      let cls := r_cf r in
       (* creating a class whose namespace has __eq__ but no __hash__ makes Python put
          __hash__ = None there: the body's own __eq__ always, a generated __eq__ only
          when the class is re-created (slots) *)
-      let py_none := negb (co_hash cls) && (co_eq cls || (r_slots r && r_eq r)) in
+      let py_none := negb (cf_hash cls) && (cf_eq cls || (r_slots r && r_eq r)) in
       let hk := match r_hash r with
                 | HGen => KGen
                 | HNoneSet => KNone
-                | HUntouched => if co_hash cls then KOwn else if py_none then KNone else KAbsent
+                | HUntouched => if cf_hash cls then KOwn else if py_none then KNone else KAbsent
                 end in
-      let ek := if r_eq r then KGen else if co_eq cls then KOwn else KAbsent in
-      let ik := if r_init r then KGen else if co_init cls then KOwn else KAbsent in
+      let ek := if r_eq r then KGen else if cf_eq cls then KOwn else KAbsent in
+      let ik := if r_init r then KGen else if cf_init cls then KOwn else KAbsent in
       let pos := filter (fun a => fa_init a && negb (fa_kw a)) (r_fields r) in
       let kwo := filter (fun a => fa_init a && fa_kw a) (r_fields r) in
       let sig := map (fun a => (fa_name a, fa_kw a, fa_default a)) (pos ++ kwo) in
@@ -780,13 +797,13 @@ Definition observe (w : world) (o : cls_outcome) : fprint :=
              fp_hash := hk; fp_eq := ek; fp_init := ik;
              fp_sig := if r_init r then Some sig else None;
              fp_pre := r_init r && r_pre r; fp_post := r_init r && r_post r;
-             fp_owninit := negb (r_init r) && co_init cls;
+             fp_owninit := negb (r_init r) && cf_init cls;
              fp_hashes :=
                if r_init r then
                  Some (match hk with
                        | KGen | KOwn => true
                        | KNone => false
-                       | KAbsent => bi_hashable (co_base cls)
+                       | KAbsent => bi_hashable (cf_base cls)
                        end)
                else None;
              fp_assign :=
@@ -800,7 +817,7 @@ Definition observe (w : world) (o : cls_outcome) : fprint :=
                            | None => AFired []
                            end
                        | SaReset => AFired []
-                       | SaKeep => if co_setattr cls then AFired ["own_setattr"] else AFired []
+                       | SaKeep => if cf_setattr cls then AFired ["own_setattr"] else AFired []
                        end)) (r_fields r) |}
   end.
 
